@@ -11,8 +11,7 @@ Inductive value :=
 | VStr (s : bytes) | VBin (s : bytes) | VArr (l : list value) | VMap (l : list (value * value))
 | VExt (ty : N) (data : bytes).
 
-Definition otake (k : N) (bs : bytes) : option (bytes * bytes) :=
-  if k <=? len bs then Some (firstn (N.to_nat k) bs, skipn (N.to_nat k) bs) else None.
+Definition otake (k : N) (bs : bytes) : option (bytes * bytes) := split_at k bs.
 Definition onum (k : N) (bs : bytes) : option (N * bytes) :=
   match otake k bs with Some (h, t) => Some (unbe h, t) | None => None end.
 Definition obind {A B} (x : option A) (f : A -> option B) : option B :=
